@@ -219,3 +219,17 @@ Proof.
         (conj (G_GetSigningCertBytes_eq c now) (G_getSignerCert_eq c now))))))).
 Qed.
 Print Assumptions C19_source_key_getters_are_the_model.
+
+(* the two setters and the decryption-certificate choice, re-translated from /repo on every run (GenKeys.v) *)
+From V Require Import GenPreludeK GenKeys P_GenKeysUnit.
+Theorem C19_source_setters_are_the_model : forall c now ks,
+  G_SetSPKeyStore c now ks = PVal (match set_sp_key_store c ks with Ok c' => (c', Ok tt) | Err e => (c, Err e) end) /\
+  G_SetSPSigningKeyStore c now ks = PVal (match set_sp_signing_key_store c ks with Ok c' => (c', Ok tt) | Err e => (c, Err e) end).
+Proof. intros c now ks. exact (conj (G_SetSPKeyStore_is_model c now ks) (G_SetSPSigningKeyStore_is_model c now ks)). Qed.
+Print Assumptions C19_source_setters_are_the_model.
+
+Theorem C19_source_getDecryptCert_is_the_model : forall parse_cert c now validate,
+  G_getDecryptCert parse_cert c now validate
+  = PVal (match get_decrypt_cert parse_cert validate now c with Ok dc => Ok (Some dc) | Err e => Err e end).
+Proof. exact G_getDecryptCert_is_model. Qed.
+Print Assumptions C19_source_getDecryptCert_is_the_model.
